@@ -78,6 +78,8 @@ type Scenario struct {
 	Pkgs  []PkgDesc `json:"pkgs,omitempty"`  // package image pool: image i is built from Pkgs[i]
 	// Lag: ObjectSets created since the last "sync" step are invisible to the ObjectDeployment controller's reads
 	Lag bool `json:"lag,omitempty"`
+	// ClusterDep: the deployment ops act on a ClusterObjectDeployment (revisions are ClusterObjectSets)
+	ClusterDep bool `json:"clusterDep,omitempty"`
 	// GracefulWidgets: Widgets are deleted gracefully (stay terminating without finalizers until the "kubelet" step)
 	GracefulWidgets bool   `json:"gracefulWidgets,omitempty"`
 	Steps           []Step `json:"steps"`
@@ -187,6 +189,7 @@ func NewRunner(sc *Scenario, mons ...Monitor) *Runner {
 	} else {
 		os.Unsetenv(constants.ForceAdoptionEnvironmentVariable)
 	}
+	DepCluster = sc.ClusterDep
 	r.W.Store.BeforeCall = r.beforeCall
 	r.InstallImages()
 	if sc.GracefulWidgets {
@@ -849,6 +852,29 @@ func (r *Runner) Exec(idx int, st Step) error {
 			r.Labels["quiesced"] = true
 		}
 		return err
+	case "settleSets":
+		// the revisions' own controllers (and the cluster's garbage collector) run until nothing changes; deployment and
+		// package controllers get no pass: what they see next is a settled set of revisions
+		for round := 0; round < r.MaxQuiesceRounds; round++ {
+			before := r.W.Store.RV()
+			r.SyncCaches()
+			for _, cn := range []string{engine.CtrlObjectSet, engine.CtrlClusterObjectSet, engine.CtrlObjectSetPhase, engine.CtrlClusterObjectSetPhase, engine.CtrlRemotePhase} {
+				if !r.W.HasController(cn) {
+					continue
+				}
+				for _, k := range r.ExistingOf(cn) {
+					if _, err := r.Reconcile(cn, k); err != nil {
+						return err
+					}
+				}
+			}
+			r.GC()
+			r.Kubelet()
+			if r.W.Store.RV() == before {
+				break
+			}
+		}
+		return nil
 	case "tpForeign":
 		// pre-existing objects outside the owner's reach: a ConfigMap in the other namespace and a ClusterWidget,
 		// optionally carrying a (forged) controller reference to the first ObjectSet
